@@ -28,6 +28,11 @@ namespace c18
             return got != want;
         }
 
+        struct Pair16
+        {
+            uint16_t a, b;
+        };
+
         template <class T>
         size_t offset_oracle(const T* p, size_t size, size_t block)
         {
@@ -45,7 +50,10 @@ namespace c18
                 return "";
             const T* p = (const T*)q;
             static const size_t sizes[] = { 0, 1, 2, 3, 7, 8, 15, 16, 17, 31, 33, 64, 100 };
-            for (size_t block = 1; block <= 64; block *= 2)
+            // block == 1 means "every element is its own block": only meaningful for a pointer that is a whole number of
+            // elements away from 0; for types with sizeof > alignof the other residues are left out (no contract there)
+            const bool elem_aligned = ((uintptr_t)q % sizeof(T)) == 0;
+            for (size_t block = elem_aligned ? 1 : 2; block <= 64; block *= 2)
                 for (size_t size : sizes)
                 {
                     ++evaluated;
@@ -151,6 +159,13 @@ namespace c18
                     return o;
                 }
                 o.problem = offset_check<T>(q, o.evaluated);
+                // element types whose size exceeds their alignment (the pointer can be alignof-aligned without being element-aligned)
+                if (o.problem.empty())
+                    o.problem = offset_check<std::complex<float>>(q, o.evaluated);
+                if (o.problem.empty())
+                    o.problem = offset_check<std::complex<double>>(q, o.evaluated);
+                if (o.problem.empty())
+                    o.problem = offset_check<Pair16>(q, o.evaluated);
                 return o;
             }
         };
